@@ -132,8 +132,8 @@ impl PageId {
             // 7 + 6*9 = 61 - max bit-width of a page with depth 9.
             let mut word: u64 = 0;
             for limb in &self.path {
-                word += (limb + 1) as u64;
                 word <<= 6;
+                word += (limb + 1) as u64;
             }
 
             let mut buf = [0u8; 32];
@@ -143,8 +143,8 @@ impl PageId {
         } else {
             let mut uint = Uint::<256, 4>::from(0);
             for limb in &self.path {
-                uint += Uint::from(limb + 1);
                 uint <<= 6;
+                uint += Uint::from(limb + 1);
             }
 
             uint.to_be_bytes::<32>()
